@@ -914,7 +914,7 @@ def case_helpers(rng, ctx):
                 cell = struc.unitcell_from_vectors(box)
             expect_shape(ctx, box, (3, 3), "vectors_from_unitcell")
             b64 = np.asarray(box, np.float64)
-            within(ctx, "unitcell_textbook", b64 - ref, 8 * E32 * Lm, "vectors_from_unitcell vs textbook formula")
+            within(ctx, "unitcell_textbook", b64 - ref, 16 * E32 * Lm, "vectors_from_unitcell vs textbook formula")
             got_l = np.array([float(v) for v in cell[:3]])
             got_a = np.array([float(v) for v in cell[3:]])
             within(ctx, "unitcell_roundtrip", got_l - np.asarray(lens, np.float64), 16 * E32 * Lm * 1.0,
